@@ -75,6 +75,13 @@ def held_by(kind: str, cont: Any, item: Any) -> bool:
     return cont.current is item
 
 
+def held_raw(kind: str, cont: Any, item: Any) -> bool:
+    """is the item stored in the container (whatever the container says about being disposed)"""
+    if kind == "comp":
+        return any(x is item for x in cont.disposable)
+    return cont.current is item
+
+
 def apply_op(kind: str, cont: Any, items: list, op: list) -> Any:
     """returns ("ok", value) or ("raised", exc)"""
     try:
@@ -301,6 +308,12 @@ def scenario(c: Any, P: dict) -> dict:
         t.start()
     for t in ts:
         t.join()
+    # at quiescence, before the harness drains the container: a container that reports disposed holds nothing any more (an item
+    # stored into it while / after it was being disposed would never be disposed by anybody)
+    if cont.is_disposed:
+        held = [it.iid for it in items if held_raw(kind, cont, it)]
+        if held:
+            viol.append(("C26:%s:disposed-container-still-holds-an-item" % kind, {"items": held, "counts": [items[i].n for i in held]}))
     cont.dispose()
     counts = [it.n for it in items]
     ok_assign = [op[1] for ti, p in enumerate(P["progs"]) for oi, op in enumerate(p) if op[0] in ("assign", "add") and results[(ti, oi)][0] == "ok"]
